@@ -134,7 +134,7 @@ def _classify(op, a, b):
 
 
 PROP = {
-    "thm": ["Umya.Thm.C03", "Umya.Thm.C03Cell", "Umya.Thm.C03Sheet"],
+    "thm": ["Umya.Thm.C03", "Umya.Thm.C03Cell", "Umya.Thm.C03Sheet", "Umya.Thm.C03Gen"],
     "harness": "c03",
     "level": "translation_validation",
     "stateful": True,
@@ -176,7 +176,7 @@ PROP = {
                   "Trusted: the Lean decoder (spec, ~900 lines, executed, not "
                   "verified against the standards' text), the zip crate, the harness view function and generator, the classifier in this file. Below the abstraction (not compared): "
                   "empty string vs no value (C03_cell compares kinds through shownKind for the same reason), blank hyperlink-anchor cells, default-width columns, optional apostrophes around plain sheet names in defined names, order of tables.",
-    "expect_theorems": ["C03_channels_match_source", "C03_attr", "C03_attr_get", "C03_text", "C03_cols", "C03_shared_formula", "C03_value_number", "C03_value_error",
+    "expect_theorems": ["C03_channels_match_source", "C03_guess_matches_source", "C03_attr", "C03_attr_get", "C03_text", "C03_cols", "C03_shared_formula", "C03_value_number", "C03_value_error",
                         "C03_string_item", "C03_cell_number", "C03_cell_shared_string", "C03_cell_str", "C03_cell_bool", "C03_cell_error", "C03_cell_inline_string",
                         "C03_cell", "C03_cell_kind", "C03_positions",
                         "C03_attr_literal_whitespace", "C03_text_literal_cr", "C03_cell_edge_blanks_fails", "C03_cell_t_and_runs_fails",
